@@ -250,6 +250,17 @@ def order_cases(rng, quick):
             f2 = [0] * (deg + 1)
             for i, c in enumerate(g2): f2[2 * i] = c
             items.append((f2, [Id('sg'), f2, [0, 0, 1]], power_basis(f2, [F(0), F(0), F(1)]), 'Z[alpha]:subfield'))
+        if deg in (3, 4, 5):
+            # generators whose successive powers DROP in degree (theta = alpha^(deg-1) in Q[x]/(x^deg - c): degrees deg-1, deg-2, ..;
+            # theta = alpha^2 + 2t alpha - 2t^2 in Q[x]/(x^3 - c): theta^2 is linear): a row buffer reused across powers shows here
+            cc = rng.choice([2, 3, 5, -2, 7])
+            fp = [-cc] + [0] * (deg - 1) + [1]
+            tp = [F(0)] * (deg - 1) + [F(1)]
+            items.append((fp, [Id('sg'), fp, tp], power_basis(fp, tp), 'Z[alpha]:dropping-powers'))
+            if deg == 3:
+                t_ = rng.choice([1, -1, 2])
+                tq = [F(-2 * t_ * t_), F(2 * t_), F(1)]
+                items.append((fp, [Id('sg'), fp, tq], power_basis(fp, tq), 'Z[alpha]:dropping-powers'))
         for ff, O, G, kind in items:
             tag = 'ctor:%s:deg%d' % (kind, deg)
             out.append(Case('ord_basis', line('ord_basis', O), oracle=o_canon(G, kind), nontrivial=nt, tag=tag, always_oracle=True))
